@@ -4,6 +4,7 @@ import Mathlib.Analysis.InnerProductSpace.Basic
 import Mathlib.Analysis.InnerProductSpace.Dual
 import Mathlib.Analysis.Calculus.Gradient.Basic
 import Mathlib.Analysis.Calculus.LocalExtr.Basic
+import Mathlib.Analysis.SpecialFunctions.Log.Basic
 /-! helper lemmas for C11: metric projection via its variational inequality, descent direction, first-order optimality -/
 namespace QM.C11
 open QM.C10
@@ -397,4 +398,82 @@ theorem pot_step (m : Nat) (e : ℝ) (r : List ℝ) :
     have h := pot_succ_sub k r
     simp only [pot, List.take_succ_cons, lsum_cons'] at *
     rw [h]; push_cast; ring
+end QM.C11
+
+/-! ## Cauchy–Schwarz for the window: `(Σ a)² ≤ length · Σ a²` -/
+namespace QM.C11
+
+theorem sq_lsum_le : ∀ l : List ℝ, (lsum l) ^ 2 ≤ (l.length : ℝ) * lsum (l.map (· ^ 2))
+  | [] => by simp [lsum]
+  | a :: l => by
+    have ih := sq_lsum_le l
+    have hQ : 0 ≤ lsum (l.map (· ^ 2)) := lsum_nonneg' _ (by
+      intro v hv
+      obtain ⟨w, _, rfl⟩ := List.mem_map.1 hv
+      positivity)
+    simp only [List.map_cons, lsum_cons', List.length_cons]
+    push_cast
+    rcases Nat.eq_zero_or_pos l.length with h0 | hpos
+    · have : l = [] := List.length_eq_zero_iff.1 h0
+      subst this
+      simp [lsum]
+    · have hk : (0 : ℝ) < (l.length : ℝ) := by exact_mod_cast hpos
+      have h1 : 0 ≤ ((l.length : ℝ) * a - lsum l) ^ 2 := sq_nonneg _
+      -- 2 k a S ≤ k² a² + S² ≤ k² a² + k Q  ⇒  2 a S ≤ k a² + Q
+      have h2 : 2 * a * lsum l ≤ (l.length : ℝ) * a ^ 2 + lsum (l.map (· ^ 2)) := by
+        have : (l.length : ℝ) * (2 * a * lsum l) ≤ (l.length : ℝ) * ((l.length : ℝ) * a ^ 2 + lsum (l.map (· ^ 2))) := by
+          nlinarith
+        exact le_of_mul_le_mul_left this hk
+      nlinarith
+
+theorem sq_lsum_take_le (r : List ℝ) (n : Nat) :
+    (lsum (r.take n)) ^ 2 ≤ (n : ℝ) * lsum ((r.map (· ^ 2)).take n) := by
+  have h := sq_lsum_le (r.take n)
+  rw [List.map_take] at h
+  have hQ : 0 ≤ lsum ((r.map (· ^ 2)).take n) := lsum_nonneg' _ (by
+    intro v hv
+    obtain ⟨w, _, rfl⟩ := List.mem_map.1 (List.mem_of_mem_take hv)
+    positivity)
+  have hl : ((r.take n).length : ℝ) ≤ (n : ℝ) := by exact_mod_cast List.length_take_le n r
+  nlinarith
+
+end QM.C11
+
+/-! ## Gibbs' inequality for the relative-entropy objective -/
+namespace QM.C11
+
+/-- one outcome: `q (log q − log p) ≥ q − p` when `p > 0` wherever `q > 0` -/
+theorem relEnt_term_ge (a b : ℝ) (ha : 0 ≤ a) (hb : 0 ≤ b) (hab : 0 < b → 0 < a) :
+    b - a ≤ (if (0 : ℝ) < b then b * Real.log b - b * Real.log a else 0) := by
+  split_ifs with h
+  · have ha' := hab h
+    have hl := Real.log_le_sub_one_of_pos (div_pos ha' h)
+    rw [Real.log_div ha'.ne' h.ne'] at hl
+    have : b * (Real.log a - Real.log b) ≤ b * (a / b - 1) := mul_le_mul_of_nonneg_left hl h.le
+    have e : b * (a / b - 1) = a - b := by field_simp
+    linarith
+  · have : b = 0 := le_antisymm (not_lt.1 h) hb
+    linarith
+
+theorem relEnt_ge : ∀ (p q : List ℝ), p.length = q.length →
+    (∀ ab ∈ p.zip q, 0 ≤ ab.1 ∧ 0 ≤ ab.2 ∧ ((0 : ℝ) < ab.2 → 0 < ab.1)) → lsum q - lsum p ≤ relEnt Real.log 0 p q
+  | [], [], _, _ => by simp [relEnt, lsum]
+  | [], _ :: _, h, _ => by simp at h
+  | _ :: _, [], h, _ => by simp at h
+  | a :: p, b :: q, h, hall => by
+    have ih := relEnt_ge p q (by simpa using h) (fun ab hab => hall ab (by simp [hab]))
+    obtain ⟨ha, hb, hab⟩ := hall (a, b) (by simp)
+    have ht := relEnt_term_ge a b ha hb hab
+    unfold relEnt at *
+    simp only [List.zip_cons_cons, List.map_cons, lsum_cons']
+    linarith
+
+theorem relEnt_self : ∀ q : List ℝ, relEnt Real.log 0 q q = 0
+  | [] => by simp [relEnt, lsum]
+  | b :: q => by
+    have ih := relEnt_self q
+    unfold relEnt at *
+    simp only [List.zip_cons_cons, List.map_cons, lsum_cons', ih]
+    split_ifs <;> ring
+
 end QM.C11
